@@ -9,6 +9,7 @@ import subprocess
 import sys
 
 ROOT = os.path.dirname(os.path.dirname(os.path.abspath(__file__)))
+OLD_HEAD = "2f6c3ba"  # the commit the rows of the previous full run belong to
 
 
 def main():
@@ -35,11 +36,20 @@ def main():
             rows.append((sid, prop, verdict, n.group(1) if n else ""))
             print(sid, prop, verdict, flush=True)
     head = subprocess.check_output(["git", "-C", os.environ.get("VERIF_REPO", "/repo"), "log", "--format=%h", "-1"], text=True).strip()
-    if not want:
-        with open(os.path.join(ROOT, "seeded", "RESULTS.md"), "w") as fh:
-            fh.write(f"Seeded changes against the quick tier (VERIF_SEED=1), /repo at {head}\n\n| seeded change | check | verdict | violation buckets |\n|---|---|---|---|\n")
-            for row in rows:
-                fh.write("| " + " | ".join(row) + " |\n")
+    res_path = os.path.join(ROOT, "seeded", "RESULTS.md")
+    if want and os.path.exists(res_path):
+        # partial run: rows of the changes that were not run again are kept, marked with the commit they were run at
+        done = {(r[0], r[1]) for r in rows}
+        for line in open(res_path):
+            m = re.match(r"\| (C\d\d-\d) \| (C\d\d) \| (.*?) \| (.*?) \|( run at (\w+) \|)?$", line.strip())
+            if m and (m.group(1), m.group(2)) not in done and os.path.isdir(os.path.join(ROOT, "seeded", m.group(1))):
+                rows.append((m.group(1), m.group(2), m.group(3), m.group(4), m.group(6) or OLD_HEAD))
+        rows.sort(key=lambda r: (r[0], r[1]))
+    with open(res_path, "w") as fh:
+        fh.write(f"Seeded changes against the quick tier (VERIF_SEED=1); run against /repo at {head} unless the last column names an earlier commit\n\n| seeded change | check | verdict | violation buckets | run at |\n|---|---|---|---|---|\n")
+        for row in rows:
+            row = tuple(row) + ((head,) if len(row) == 4 else ())
+            fh.write("| " + " | ".join(row) + " |\n")
     return 0 if all(v == "CAUGHT" or v.startswith("NEUTRALISED") for _, _, v, _ in rows) else 1
 
 
